@@ -356,6 +356,22 @@ def check(run: Run) -> None:
         run.violation(f"sighash|{e['op']}|{e.get('route', 'direct')}|{e.get('kind', '')}|ht={ht if isinstance(ht, int) else ht[-2:] if ht else ''}",
                       f"{e['op']} via {e.get('route', 'the direct call')} (input {e['idx']}, hash type {ht}, asked {e.get('asked', '-')}, input's own {e.get('input_type', '-')}, {e.get('kind', '')}): btclib {e['out']}, specification {diag.get(k)}",
                       {"event": e, "spec": diag.get(k)})
+    # the digest a psbt's partial signatures are verified against on the way to a finalized input is the one of each signature's own hash type byte:
+    # the finalizer's verdict on multisig inputs signed under two types (honestly, and with one signature made over the other's digest), judged by the
+    # specification's engine (C10Trace) on the transaction those signatures make
+    from . import c10
+
+    fevs: list[dict[str, Any]] = []
+    c10.record_finalizer_verdicts(run, random.Random(run.seed + 9), thorough, fevs)
+    keep = ("op", "tx", "prevouts", "idx", "flags", "ok")
+    fres, fbad, fdiag = events.validate("C10Trace", [{k: v for k, v in e.items() if k in keep} for e in fevs], batch=300, timeout=3000)
+    for r in fres:
+        run.tlc(r, "V C10Trace (finalizer verdicts)")
+    for k in fbad:
+        e = fevs[k]
+        run.violation(f"sighash|finalizer|{e['kind']}", f"{e['kind']}: the finalizer {'takes' if e['ok'] else 'refuses'} the signatures; the specification's engine says {str(fdiag.get(k))[:160]}",
+                      {"event": e, "spec": str(fdiag.get(k))[:1000], "trace_module": "C10Trace"})
+    run.section("finalizer_verdicts", {"inputs": len(fevs), "taken": sum(1 for e in fevs if e["ok"])})
     run.sample({k: v for k, v in evs2[0].items()})
     run.sample({k: (v if k not in ("tx", "prevouts") else "...") for k, v in evs2[-1].items()})
     run.count(evaluations=len(evs), validated=len(evs2), nontrivial=len({e["out"] for e in evs2 if e["out"] != "refused"}))
@@ -367,7 +383,11 @@ def replay(path: str) -> int:
     e = body.get("event")
     if not e:
         return 0
-    _, bad, diag = events.validate("C09Trace", [e])
+    if body.get("trace_module") == "C10Trace":
+        keep = ("op", "tx", "prevouts", "idx", "flags", "ok")
+        _, bad, diag = events.validate("C10Trace", [{k: v for k, v in e.items() if k in keep}])
+    else:
+        _, bad, diag = events.validate("C09Trace", [e])
     if bad:
         print(f"VIOLATION property=C09 replay={path}  # spec {diag}")
         return 1
